@@ -209,6 +209,14 @@ CLAIMS = {
              'behaviours: for every object and kind the k-th before-hook < k-th statement < k-th after-hook with equal counts, and the committed database contains attribute edits and '
              'objects made inside before_* hooks.',
         note='Exactly-once across arbitrary flush rounds is history-dependent: only the enumerated scenarios (bounded).'),
+    'C16': dict(
+        text='PARTIAL: finite proof (ghost order) on the real Entity._save_ / _save_principal_objects_ over every reference graph of 3 objects with 2 reference slots each and '
+             'created / modified statuses: every referenced created object is written before the object referring to it, each once, a cycle among created objects raises '
+             'UnresolvableCyclicDependency, the queue ends empty; SessionCache.flush round shape (before-hooks, remove_m2m, saves, add_m2m, after-hooks). BOUNDED end to end: every valid script of '
+             '<= 3 (thorough: 5) operations over an 18-operation alphabet (creates with / without references, re-pointing in both directions, deletes, many-to-many link / unlink / create / '
+             'delete) on real SQLite with immediate foreign keys: orderable scripts commit and the database equals a reference model, cyclic ones raise and leave the database unchanged.',
+        note='Acceptance by the database is checked on SQLite only and only for the enumerated scripts (bounded). One known finding (unique key reused by a re-created object that is saved '
+             'principal-first before the pending DELETE).'),
 }
 
 _NOT_BUILT = 'within reach of the technique per DESIGN.md, check not built yet'
